@@ -32,20 +32,34 @@ def run(p, report, tier):
     report.rule("R13.3", "SlidingWindowClassifier: every deque stored in X_train_, y_train_, sample_weight_train_ is "
                 "created with maxlen=self.window_size, fit re-creates all three, partial_fit extends all three", floor=5)
     ents = fit_entities(p)
+    check_fit_recomputes(p, report, ents, "R13.2")
+    report.rule("R13.4", "incremental learners keep their documented history: on the partial_fit path (literal "
+                "fit_function propagated into the delegated method) an attribute holding the fitted model is "
+                "re-created from the constructor parameter only under a test that is false while that attribute exists",
+                floor=2)
+    check_incremental_history(p, report)
+    _rest(p, report, tier)
+
+
+def check_fit_recomputes(p, report, ents, rule, skip_attrs=()):
     for ci, f in ents:
         am = AttrMust(p, ci, f).run()
         must, exposed = am.summary()
+        exposed = {a: v for a, v in exposed.items() if a not in skip_attrs}
         ent = f"{ci.name}.fit"
         for attr, (ln, file, qual, facts, via) in sorted(exposed.items()):
             exc = EXPOSED_OK.get((ent, attr))
-            report.add("R13.2", ent, f"read of self.{attr} in {qual}", f"{file}:{ln}", exc is not None,
+            report.add(rule, ent, f"read of self.{attr} in {qual}", f"{file}:{ln}", exc is not None,
                        detail=("accepted: " + exc) if exc else
                        f"self.{attr} is read before this fit call has stored it (a value from an earlier fit/predict "
                        f"leaks in) on the path where: {facts or 'always'}" + (f" via {' <- '.join(via)}" if via else ""))
         if not exposed:
-            report.add("R13.2", ent, "every fitted attribute read in fit was stored earlier in the same call",
+            report.add(rule, ent, "every fitted attribute read in fit was stored earlier in the same call",
                        f"{f.file}:{f.node.lineno}", True, detail=f"{len(must)} attributes definitely (re)computed: "
                        + ", ".join(sorted(must)[:12]))
+
+
+def _rest(p, report, tier):
     # ---- R13.3
     sw = p.get_class("SlidingWindowClassifier")
     names = ("X_train_", "y_train_", "sample_weight_train_")
@@ -85,3 +99,112 @@ def run(p, report, tier):
            and n.func.value.value.id == "self"}
     report.add("R13.3", "SlidingWindowClassifier._add_samples", "all three windows are extended together",
                f"{add.file}:{add.node.lineno}", set(names) <= ext, detail=f"extended: {sorted(ext)}")
+
+
+# ---------------------------------------------------------------------------
+# R13.4 incremental history: on the partial_fit path an attribute that holds
+# the incrementally fitted model is re-created from the constructor parameter
+# only when it does not exist yet.
+def _tri(e, env):
+    """three-valued evaluation of a test under `env` (dict text -> bool)"""
+    if isinstance(e, ast.BoolOp):
+        vals = [_tri(v, env) for v in e.values]
+        if isinstance(e.op, ast.And):
+            if any(v is False for v in vals):
+                return False
+            return True if all(v is True for v in vals) else None
+        if any(v is True for v in vals):
+            return True
+        return False if all(v is False for v in vals) else None
+    if isinstance(e, ast.UnaryOp) and isinstance(e.op, ast.Not):
+        v = _tri(e.operand, env)
+        return None if v is None else (not v)
+    if isinstance(e, ast.Compare) and len(e.ops) == 1:
+        l, r = ast.unparse(e.left), ast.unparse(e.comparators[0])
+        for a, b in ((l, r), (r, l)):
+            if a in env and isinstance(env[a], str):
+                try:
+                    lit = ast.literal_eval(b)
+                except Exception:
+                    continue
+                eq = env[a] == lit
+                if isinstance(e.ops[0], ast.Eq):
+                    return eq
+                if isinstance(e.ops[0], ast.NotEq):
+                    return not eq
+        # getattr(self, 'a', None) is None  ==  not hasattr(self, 'a')
+        if isinstance(e.left, ast.Call) and isinstance(e.left.func, ast.Name) and e.left.func.id == "getattr" \
+                and len(e.left.args) == 3 and isinstance(e.comparators[0], ast.Constant) and e.comparators[0].value is None \
+                and isinstance(e.left.args[2], ast.Constant) and e.left.args[2].value is None:
+            key = f"hasattr({ast.unparse(e.left.args[0])}, {ast.unparse(e.left.args[1])})"
+            if key in env:
+                return (not env[key]) if isinstance(e.ops[0], ast.Is) else env[key]
+        return None
+    txt = ast.unparse(e)
+    if txt in env and isinstance(env[txt], bool):
+        return env[txt]
+    return None
+
+
+def check_incremental_history(p, report, rule="R13.4"):
+    n = 0
+    for ci in sorted(p.classes.values(), key=lambda c: c.name):
+        pf = ci.methods.get("partial_fit")
+        if pf is None:
+            continue
+        # the function that does the work: partial_fit itself or the `_fit(fit_function=...)` it delegates to
+        targets = [(pf, {})]
+        for c in ast.walk(pf.node):
+            if isinstance(c, ast.Call) and isinstance(c.func, ast.Attribute) and isinstance(c.func.value, ast.Name) \
+                    and c.func.value.id == "self":
+                g = p.find_method(ci, c.func.attr)
+                if g is None:
+                    continue
+                env = {}
+                params = [a for a in g.params() if a != "self"]
+                for i, a in enumerate(c.args):
+                    if i < len(params) and isinstance(a, ast.Constant) and isinstance(a.value, str):
+                        env[params[i]] = a.value
+                for k in c.keywords:
+                    if k.arg and isinstance(k.value, ast.Constant) and isinstance(k.value.value, str):
+                        env[k.arg] = k.value.value
+                if env:
+                    targets.append((g, env))
+        for g, env in targets:
+            parents = {}
+            for x in ast.walk(g.node):
+                for ch in ast.iter_child_nodes(x):
+                    parents[ch] = x
+            for st in ast.walk(g.node):
+                if not (isinstance(st, ast.Assign) and len(st.targets) == 1 and isinstance(st.targets[0], ast.Attribute)
+                        and isinstance(st.targets[0].value, ast.Name) and st.targets[0].value.id == "self"
+                        and isinstance(st.value, ast.Call) and isinstance(st.value.func, (ast.Name, ast.Attribute))):
+                    continue
+                fn = st.value.func.id if isinstance(st.value.func, ast.Name) else st.value.func.attr
+                if fn not in ("deepcopy", "clone", "copy") or not st.value.args:
+                    continue
+                a0 = st.value.args[0]
+                if not (isinstance(a0, ast.Attribute) and isinstance(a0.value, ast.Name) and a0.value.id == "self"
+                        and not a0.attr.endswith("_")):
+                    continue
+                attr = st.targets[0].attr
+                e2 = dict(env)
+                e2[f"hasattr(self, '{attr}')"] = True        # an incrementally fitted model exists
+                reach = True
+                cur = st
+                while cur in parents:
+                    par = parents[cur]
+                    if isinstance(par, ast.If):
+                        v = _tri(par.test, e2)
+                        branch = "body" if cur in par.body else ("orelse" if cur in par.orelse else None)
+                        if branch == "body" and v is False:
+                            reach = False
+                        if branch == "orelse" and v is True:
+                            reach = False
+                    cur = par
+                n += 1
+                report.add(rule, f"{ci.name}.partial_fit", f"reset `{norm_stmt(st, 60)}` in {g.name}", f"{g.file}:{st.lineno}",
+                           not reach, detail="not reachable while an incrementally fitted model exists" if not reach else
+                           f"on the partial_fit path ({env or 'direct'}) the incrementally fitted self.{attr} is replaced by a "
+                           "fresh copy of the constructor parameter although it exists: earlier batches are forgotten")
+    return n
